@@ -8,7 +8,7 @@ cd $D/repo && git checkout -q -- . && git apply "$P" || { echo "APPLY-FAILED $P"
 rsync -a --delete --exclude target /verif/harness/src/ $D/harness/src/
 grep -rl '"/repo' $D/harness/src 2>/dev/null | xargs -r sed -i "s#\"/repo#\"$D/repo#g"
 mkdir -p $D/out; rm -rf $D/out/known_findings.d; cp -r /verif/known_findings.txt /verif/known_findings.d $D/out/ 2>/dev/null; mkdir -p $D/out/baselines; cp -r /verif/baselines/. $D/out/baselines/ 2>/dev/null
-cd $D/harness && cargo build --release --offline --bin $BIN 2>&1 | grep -E "^error" -A10 | head -20
+cd $D/harness && cargo build --release --offline --bin $BIN $( [[ " C19 C20 C22 C23 " == *" $ID "* ]] && echo --bin samyama_server_shim ) 2>&1 | grep -E "^error" -A10 | head -20
 VERIF_DIR=$D/out timeout 1800 $D/target/release/$BIN $TIER > $D/out/run.log 2>&1; RC=$?
 grep -E "^VIOLATION" $D/out/run.log | head -3 | cut -c1-300
 echo "MUTATION $(basename $P) check=$ID tier=$TIER exit=$RC $(grep -c '^VIOLATION' $D/out/run.log) violation-lines"
